@@ -40,3 +40,7 @@ func SxStat(x Sx) *types.Stat {
 	}
 	return s
 }
+
+func nil_stat(mode uint32, size int64) *types.Stat {
+	return &types.Stat{Mode: mode, Size: size, ModTime: 1600000000000000000}
+}
